@@ -1,6 +1,6 @@
 import TantivyModel.Proofs.Columnar.Mapping
 import TantivyModel.Proofs.Columnar.LinearColumn
-import TantivyModel.Proofs.Columnar.Stack
+import TantivyModel.Proofs.Columnar.StackMissing
 import TantivyModel.Proofs.Columnar.Writer
 import TantivyModel.Proofs.Columnar.OptRankSelect
 /-!
@@ -332,14 +332,21 @@ example : read (mergeShuffled [(0, 1), (1, 0), (0, 0)]
       [⟨2, some (encodeAs .optional [[7], []])⟩, (⟨1, none⟩ : MergeInput Nat)]).2
     = [[], [], [7]] := by decide
 
-/-- stacked merge: for inputs in canonical form — each input column is `encodeAs card rows` for a
-cardinality that fits its rows, which is what the writer (`C08_writer_pipeline_partial`) and every
-earlier merge (`mergeShuffledAs_eq`, `mergeStacked_canon`) produce — the merged column is
-`encodeAs (max cardinality) (all rows)` and reads back as the concatenation of the inputs. -/
-theorem C08_merge_stack {V : Type} (cols : List (Card × Column V)) (hfit : ∀ c ∈ cols, c.1.fits c.2) :
-    read (mergeStacked (cols.map canonInput)).1 (mergeStacked (cols.map canonInput)).2
-      = stackSpec (cols.map (·.2)) :=
-  read_mergeStacked cols hfit
+/-- stacked merge: every input is either missing in that segment (`ColumnIndex::Empty { num_docs }`)
+or in canonical form — `encodeAs card rows` for a cardinality that fits its rows, which is what the
+writer (`C08_writer_pipeline`) and every earlier merge (`mergeShuffledAs_eq`, `mergeStacked_canon`)
+produce. The merged column (maximum cardinality, rows-with-values shifted by the segment offsets,
+cumulated start offsets, concatenated values) reads back as the concatenation of what a reader
+sees of each input; a missing column contributes `num_docs` absent rows. -/
+theorem C08_merge_stack {V : Type} (ins : List (MergeInput V)) (h : ∀ m ∈ ins, CanonOrMissing m) :
+    read (mergeStacked ins).1 (mergeStacked ins).2 = stackSpec (ins.map MergeInput.read) :=
+  read_mergeStacked_any ins h
+
+example : read (mergeStacked [⟨1, some (encodeAs .full [[1]])⟩, ⟨2, none⟩,
+      (⟨1, some (encodeAs .full [[5]])⟩ : MergeInput Nat)]).1
+    (mergeStacked [⟨1, some (encodeAs .full [[1]])⟩, ⟨2, none⟩,
+      (⟨1, some (encodeAs .full [[5]])⟩ : MergeInput Nat)]).2
+    = [[1], [], [], [5]] := by decide
 
 example : read (mergeStacked [⟨2, some (encodeAs .full [[1], [2]])⟩,
       (⟨2, some (encodeAs .multivalued [[], [3, 4]])⟩ : MergeInput Nat)]).1
